@@ -9,11 +9,16 @@ Two kinds of case:
   explicitly), so a case replays exactly.
 * "profile": an integer-valued column (with nulls) is profiled through `DataFrame.profile`;
   `estimate_values_below / above` are probed inside the observed range.
+* "pseq": a sequence on profile *objects* — estimate, add (`+`, `TableProfile.__add__`), copy, estimate
+  again — every round of estimates judged against the values the object really holds, and the same
+  operations run on Model/ProfileEst.lean (the Distogram an estimate leaves on the object is part of
+  the model's state).
 
 Oracle = the property's clauses on the implementation's outputs (floats with relative tolerance
 1e-9, the property's "up to rounding").  Correspondence = the same queries on
 Model/Estimators.lean, fed the implementation's bins and bounds.
 """
+import math
 from fractions import Fraction
 
 from .. import core, wire
@@ -45,6 +50,10 @@ def grid_points(h, n):
         xs.add(v)
         xs.add(v + abs(v) * 1e-12)
         xs.add(v - abs(v) * 1e-12)
+    for v in [lo, hi] + [float(b[0]) for b in h.bins]:
+        # exactly at, one float below and one float above every threshold of count_at (min, max, first / last / every centre)
+        xs.add(math.nextafter(v, math.inf))
+        xs.add(math.nextafter(v, -math.inf))
     w = (hi - lo) or max(abs(lo), 1.0)
     xs.update([lo - w * 0.5, hi + w * 0.25, lo - abs(lo) * 1e-9 - 1e-300, hi + abs(hi) * 1e-9 + 1e-300, lo + w * 1e-9, hi - w * 1e-9])
     return sorted(xs)
@@ -57,12 +66,77 @@ def level_points(n):
     return sorted(qs)
 
 
+def rank_levels(h):
+    """Quantile levels whose integer rank int(total * q) sits exactly at, one below and one above the two thresholds of
+    `quantile` (f0 / 2 and total - fl / 2 — integers when the first / last count is even), and at 0, 1, total - 1, total."""
+    total = sum(int(f) for _, f in h.bins)
+    f0, fl = int(h.bins[0][1]), int(h.bins[-1][1])
+    if total <= 0:
+        return []
+    ranks = set()
+    for t in (Fraction(f0, 2), total - Fraction(fl, 2)):
+        for r in (math.floor(t) - 1, math.floor(t), math.ceil(t), math.ceil(t) + 1):
+            ranks.add(r)
+    ranks.update([0, 1, total - 1, total])
+    qs = set()
+    for r in ranks:
+        if 0 <= r <= total:
+            qs.add(min(1.0, (r + 0.5) / total) if r < total else 1.0)
+            qs.add(r / total)
+    return sorted(q for q in qs if 0.0 <= q <= 1.0)
+
+
+def count_branch(h, x):
+    """Which branch of count_at answers the exact query point x (measured for the evidence)."""
+    lo, hi = exact(h.min), exact(h.max)
+    if x < lo or x > hi:
+        return "outside"
+    if x == lo:
+        return "at-min"
+    if x == hi:
+        return "at-max"
+    if x <= exact(h.bins[0][0]):
+        return "left-tail" + ("" if x < exact(h.bins[0][0]) else " (at the first centre)")
+    if x >= exact(h.bins[-1][0]):
+        return "right-tail" + ("" if x > exact(h.bins[-1][0]) else " (at the last centre)")
+    return "interior" + (" (at a centre)" if any(exact(v) == x for v, _ in h.bins) else "")
+
+
+def quantile_branch(h, q):
+    if q < 0 or q > 1:
+        return "outside"
+    total = sum(int(f) for _, f in h.bins)
+    r = int(total * q)  # Python's int() on the same product the code forms (exact in both modes for these sizes)
+    f0, fl = int(h.bins[0][1]), int(h.bins[-1][1])
+    if 2 * r <= f0:
+        return "left" + (" (rank = f0/2 exactly)" if 2 * r == f0 else "")
+    if 2 * r >= 2 * total - fl:
+        return "right" + (" (rank = total - fl/2 exactly)" if 2 * r == 2 * total - fl else "")
+    return "interior"
+
+
 def to_query(mode, x):
     """A float query point -> the value handed to the implementation."""
     return Fraction(x) if mode == "q" else float(x)
 
 
 # --------------------------------------------------------------------------- oracle
+
+def left_values(lo, v0, f0, pts, flags):
+    """For the open finding C14-K01: what count_at's left branch computes as it stands (`ratio * v0 / 2`) and what
+    it is meant to compute (`ratio * f0 / 2`) at each of `pts` flagged as a left-tail point — in exact arithmetic."""
+    lo, v0 = Fraction(lo), Fraction(v0)
+    as_is, meant = [], []
+    for x, left in zip(pts, flags):
+        if left and v0 != lo:
+            ratio = (Fraction(x) - lo) / (v0 - lo)
+            as_is.append(float(ratio * v0 / 2))
+            meant.append(float(ratio * f0 / 2))
+        else:
+            as_is.append(None)
+            meant.append(None)
+    return {"left_as_is": as_is, "left_meant": meant}
+
 
 
 def check_count_at(mode, h, xs, rs, total):
@@ -95,9 +169,12 @@ def check_count_at(mode, h, xs, rs, total):
             bad = ("count_at: estimate outside [0, total]", {"x": float(x), "got": float(r), "total": float(total)})
         if in_left(x):
             if bad is None and prev is not None and r < prev[1] - tol:
-                bad = ("count_at: estimate decreases", {"x1": float(prev[0]), "r1": float(prev[1]), "x2": float(x), "r2": float(r)})
+                bad = ("count_at: estimate decreases", {"x1": float(prev[0]), "r1": float(prev[1]), "x2": float(x), "r2": float(r),
+                                                        "left_pts": [bool(in_left(prev[0])), True]})
             if bad is not None and left_fail is None:
                 bad[1].update({"left_tail": True, "first_centre": float(v0), "first_count": f0})
+                bad[1].setdefault("left_pts", [True])
+                bad[1].update(left_values(lo, v0, f0, [prev[0], x] if "x1" in bad[1] else [x], bad[1]["left_pts"]))
                 left_fail = bad
         else:
             if bad is not None:
@@ -107,7 +184,9 @@ def check_count_at(mode, h, xs, rs, total):
             if left_fail is None and prev is not None and r < prev[1] - tol:
                 # a drop from a left-tail point to the first point right of the first centre
                 left_fail = ("count_at: estimate decreases", {"x1": float(prev[0]), "r1": float(prev[1]), "x2": float(x), "r2": float(r),
-                                                              "left_tail": True, "first_centre": float(v0), "first_count": f0})
+                                                              "left_tail": True, "first_centre": float(v0), "first_count": f0,
+                                                              "left_pts": [bool(in_left(prev[0])), False]})
+                left_fail[1].update(left_values(lo, v0, f0, [prev[0], x], left_fail[1]["left_pts"]))
             prev_clean = (x, r)
         prev = (x, r)
     return left_fail
@@ -190,6 +269,7 @@ def run_hist_case(case):
     res.items = []  # (reg, model line, impl count results, impl quantile results, scales)
     res.c13_failed = out.fail is not None
     res.c13_clause = out.fail[0] if out.fail else None
+    res.branches = {}
     if out.fail is not None:
         # the histogram itself violates C13: that is C13's report, not C14's
         return res
@@ -207,7 +287,7 @@ def run_hist_case(case):
                     return res
                 continue
             xs_f = sorted(set(grid_points(h, case.get("grid", 16)) + [float(x) for x in case.get("xs", [])]))
-            qs_f = sorted(set(level_points(case.get("levels", 16)) + [float(q) for q in case.get("qs", [])]))
+            qs_f = sorted(set(level_points(case.get("levels", 16)) + rank_levels(h) + [float(q) for q in case.get("qs", [])]))
             try:
                 xs, cs, qs, rs = eval_hist(mode, D, h, xs_f, qs_f)
             except Exception as e:
@@ -215,6 +295,11 @@ def run_hist_case(case):
                 return res
             total = Fraction(sum(int(f) for _, f in h.bins))
             exs = [Fraction(x) for x in xs]
+            for x in exs:
+                res.branches["count_at branch: " + count_branch(h, x)] = res.branches.get("count_at branch: " + count_branch(h, x), 0) + 1
+            for q in qs:
+                k = "quantile branch: " + quantile_branch(h, Fraction(q))
+                res.branches[k] = res.branches.get(k, 0) + 1
             bad_c = check_count_at(mode, h, exs, cs, total)
             bad_q = check_quantile(mode, h, [Fraction(q) for q in qs], rs)
             left_only = bad_c is not None and bad_c[1].get("left_tail") and bad_q is None
@@ -246,12 +331,16 @@ def run_hist_case(case):
     return res
 
 
-def build_profile(values):
+def build_profile(values, typ="INTEGER"):
+    """The column profile of one batch.  `typ` "DOUBLE": the same integer values as floats (the second way into
+    NumericProfiler), "DOUBLE-0": with every 0 written as -0.0."""
     import orso
     from orso.schema import FlatColumn, RelationSchema
     from orso.types import OrsoTypes
 
-    sch = RelationSchema(name="t", columns=[FlatColumn(name="a", type=OrsoTypes.INTEGER)])
+    if typ != "INTEGER":
+        values = [None if v is None else (-0.0 if (v == 0 and typ == "DOUBLE-0") else float(v)) for v in values]
+    sch = RelationSchema(name="t", columns=[FlatColumn(name="a", type=OrsoTypes.INTEGER if typ == "INTEGER" else OrsoTypes.DOUBLE)])
     df = orso.DataFrame(rows=[(v,) for v in values], schema=sch)
     return df.profile.column("a")
 
@@ -288,6 +377,59 @@ def profile_parts(case):
     return case["values"], None
 
 
+def judge_probes(probes, below, above, nonnull, lo, hi, pmin, pmax, hist):
+    """The profile clauses on one round of estimates: `probes` sorted points inside the observed range [lo, hi]
+    (the true extremes of the non-null values), `below` / `above` the implementation's answers (exact or None),
+    `nonnull` the number of non-null values.  Returns (hard failure or None, left-tail failure or None): a
+    failure that involves only count_at's left tail (min < p <= first centre, open finding C14-K01) never hides
+    a failure elsewhere."""
+    tol = TOL * max(nonnull, 1)
+    prev = None  # (point, below) of the last probe, left tail included
+    prev_clean = None  # ... of the last probe outside the left tail
+    left_fail = None
+    v0, f0 = (float(hist[0][0]), int(hist[0][1])) if hist else (None, None)
+    is_left = lambda q: v0 is not None and pmin is not None and pmin < q <= v0
+    for p, b, a in zip(probes, below, above):
+        d = {"point": p, "x": p, "below": None if b is None else float(b), "above": None if a is None else float(a), "non_null": nonnull,
+             "min": pmin, "max": pmax, "first_centre": v0, "first_count": f0, "got": None if b is None else float(b)}
+        # a merged profile whose first two bins were merged has a left tail (min < p <= first centre): open finding C14-K01
+        in_left = is_left(p)
+        bad = None
+        if b is None or a is None:
+            bad = "profile: estimate is None inside the observed range"
+        elif abs(b + a - nonnull) > tol:
+            bad = "profile: below + above is not the number of non-null values"
+        elif p == lo and b != 0:
+            bad = "profile: values below the minimum is not 0"
+        elif p == hi and lo < hi and abs(b - nonnull) > tol:
+            bad = "profile: values up to the maximum is not the number of non-null values"
+        elif b < -tol or b > nonnull + tol or a < -tol or a > nonnull + tol:
+            bad = "profile: estimate outside [0, non-null]"
+        elif in_left and prev is not None and b < prev[1] - tol:
+            bad = "profile: estimate of values below decreases"
+            d.update({"x1": prev[0], "r1": float(prev[1]), "x2": p, "r2": float(b), "left_pts": [bool(is_left(prev[0])), True]})
+        elif not in_left and prev_clean is not None and b < prev_clean[1] - tol:
+            bad = "profile: estimate of values below decreases"
+            d.update({"x1": prev_clean[0], "r1": float(prev_clean[1]), "x2": p, "r2": float(b), "left_pts": [False, False]})
+        if bad is not None:
+            if in_left and bad.startswith("profile: estimate") and "None" not in bad:
+                d["left_tail"] = True
+                d.setdefault("left_pts", [True])
+                d.update(left_values(pmin, v0, f0, [d["x1"], d["x2"]] if "x1" in d else [p], d["left_pts"]))
+                left_fail = left_fail or (bad, d)
+            else:
+                return (bad, d), left_fail
+        elif not in_left and left_fail is None and prev is not None and b < prev[1] - tol:
+            d["left_tail"] = True
+            d.update({"x1": prev[0], "r1": float(prev[1]), "x2": p, "r2": float(b), "left_pts": [bool(is_left(prev[0])), False]})
+            d.update(left_values(pmin, v0, f0, [prev[0], p], d["left_pts"]))
+            left_fail = ("profile: estimate of values below decreases", d)
+        if not in_left:
+            prev_clean = (p, b)
+        prev = (p, b)
+    return None, left_fail
+
+
 def run_profile_case(case):
     res = Res()
     res.fail = None
@@ -296,12 +438,13 @@ def run_profile_case(case):
     values, batches = profile_parts(case)
     nn = [v for v in values if v is not None]
     try:
+        typ = case.get("type", "INTEGER")
         if batches is None:
-            col = build_profile(values)
+            col = build_profile(values, typ)
         else:
-            col = build_profile(batches[0])
+            col = build_profile(batches[0], typ)
             for b in batches[1:]:
-                col = col + build_profile(b)
+                col = col + build_profile(b, typ)
     except Exception as e:
         res.fail = ("raised: profiling an integer column raised %s" % type(e).__name__, {"error": repr(e)[:200]})
         return res
@@ -318,47 +461,11 @@ def run_profile_case(case):
         res.fail = ("raised: profile estimator raised %s" % type(e).__name__, {"error": repr(e)[:200], "min": col.minimum, "max": col.maximum,
                                                                                 "true_range": [lo, hi]})
         return res
-    tol = TOL * max(nonnull, 1)
-    prev = None
-    prev_clean = None
-    left_fail = None
     hist = list(col.histogram)
-    v0, f0 = (float(hist[0][0]), int(hist[0][1])) if hist else (None, None)
-    pmin = col.minimum
-    for p, b, a in zip(probes, below, above):
-        d = {"point": p, "x": p, "below": None if b is None else float(b), "above": None if a is None else float(a), "non_null": nonnull,
-             "min": col.minimum, "max": col.maximum, "first_centre": v0, "first_count": f0}
-        # a merged profile whose first two bins were merged has a left tail (min < p <= first centre): open finding C14-K01
-        in_left = v0 is not None and pmin is not None and pmin < p <= v0
-        bad = None
-        if b is None or a is None:
-            bad = "profile: estimate is None inside the observed range"
-        elif abs(b + a - nonnull) > tol:
-            bad = "profile: below + above is not the number of non-null values"
-        elif p == lo and b != 0:
-            bad = "profile: values below the minimum is not 0"
-        elif p == hi and lo < hi and abs(b - nonnull) > tol:
-            bad = "profile: values up to the maximum is not the number of non-null values"
-        elif b < -tol or b > nonnull + tol or a < -tol or a > nonnull + tol:
-            bad = "profile: estimate outside [0, non-null]"
-        elif in_left and prev is not None and b < prev - tol:
-            bad = "profile: estimate of values below decreases"
-        elif not in_left and prev_clean is not None and b < prev_clean - tol:
-            bad = "profile: estimate of values below decreases"
-        if bad is not None:
-            if in_left and bad.startswith("profile: estimate"):
-                d["left_tail"] = True
-                left_fail = left_fail or (bad, d)
-            else:
-                res.fail = (bad, d)
-                return res
-        elif not in_left and left_fail is None and prev is not None and b < prev - tol:
-            d["left_tail"] = True
-            d["x1"] = probes[probes.index(p) - 1]
-            left_fail = ("profile: estimate of values below decreases", d)
-        if not in_left:
-            prev_clean = b
-        prev = b
+    hard, left_fail = judge_probes(probes, below, above, nonnull, lo, hi, col.minimum, col.maximum, hist)
+    if hard is not None:
+        res.fail = hard
+        return res
     res.fail = left_fail
     bins = [(v, int(f)) for v, f in hist]
     line = model_eval_line("f", bins, col.minimum, col.maximum, [float(p) for p in probes], [], int(col.count), int(col.missing))
@@ -366,13 +473,150 @@ def run_profile_case(case):
     return res
 
 
+# --------------------------------------------------------------------------- sequences on one profile object
+
+
+def seq_probes(nn, extra):
+    """Probe points of one round of estimates on a profile holding the non-null values `nn`: both ends, the distinct
+    values (at most 40, spread evenly), the midpoints between them, and the case's own probes inside the range."""
+    lo, hi = min(nn), max(nn)
+    d = sorted(set(nn))
+    if len(d) > 40:
+        d = [d[(i * (len(d) - 1)) // 39] for i in range(40)]
+    pts = set([lo, hi] + d + [(a + b) / 2 for a, b in zip(d, d[1:])] + [p for p in extra if lo <= p <= hi])
+    return sorted(pts)
+
+
+def prof_fields(col):
+    """What the model is told about a freshly built profile."""
+    return [int(col.count), int(col.missing), None if col.minimum is None else int(col.minimum), None if col.maximum is None else int(col.maximum),
+            [[float(v), int(f)] for v, f in col.histogram]]
+
+
+def run_pseq_case(case):
+    """A sequence on profile registers.  Register i starts as the profile of `cols[i]`; `["q", r, first]` asks register r
+    for its estimates at every probe point (first = "ba": below then above, "ab": above then below, "at": estimate_values_at
+    comes first) and judges them against the values the register really holds; `["add", dst, a, b]` stores a + b,
+    `["tadd", dst, a, b]` the same through TableProfile.__add__, `["copy", dst, a]` a.deep_copy()."""
+    from orso.profiler import TableProfile
+
+    res = Res()
+    res.fail = None
+    res.items = []
+    res.c13_failed = False
+    cols = case["cols"]
+    try:
+        base = [build_profile(c, case.get("type", "INTEGER")) for c in cols]
+    except Exception as e:
+        res.fail = ("raised: profiling an integer column raised %s" % type(e).__name__, {"error": repr(e)[:200]})
+        return res
+    bases = [prof_fields(p) for p in base]
+    regs = {i: (p, [v for v in cols[i] if v is not None]) for i, p in enumerate(base)}
+    mops, rounds = [], []
+    left_fail = None
+    for k, op in enumerate(case["ops"]):
+        kind = op[0]
+        if kind == "q":
+            col, nn = regs[op[1]]
+            first = op[2] if len(op) > 2 else "ba"
+            if not nn:
+                continue  # no observed range: the property says nothing (dropped on both sides)
+            probes = seq_probes(nn, case.get("probes", []))
+            below, above = [], []
+            try:
+                for p in probes:
+                    if first == "at":
+                        col.estimate_values_at(p)
+                    if first == "ab":
+                        a = col.estimate_values_above(p)
+                        b = col.estimate_values_below(p)
+                    else:
+                        b = col.estimate_values_below(p)
+                        a = col.estimate_values_above(p)
+                    below.append(exact(b))
+                    above.append(exact(a))
+            except Exception as e:
+                res.fail = ("raised: profile estimator raised %s" % type(e).__name__,
+                            {"error": repr(e)[:200], "op": k, "min": col.minimum, "max": col.maximum, "true_range": [min(nn), max(nn)]})
+                return res
+            hard, lf = judge_probes(probes, below, above, len(nn), min(nn), max(nn), col.minimum, col.maximum, list(col.histogram))
+            if hard is not None:
+                hard[1]["op"] = k
+                res.fail = hard
+                return res
+            if lf is not None and left_fail is None:
+                lf[1]["op"] = k
+                left_fail = lf
+            mops.append(["q", op[1], [float(p) for p in probes]])
+            rounds.append((k, probes, below, above, len(nn)))
+        else:
+            try:
+                if kind == "add":
+                    new = regs[op[2]][0] + regs[op[3]][0]
+                elif kind == "tadd":
+                    ta, tb = TableProfile(), TableProfile()
+                    ta.add_column(regs[op[2]][0], "a")
+                    tb.add_column(regs[op[3]][0], "a")
+                    new = (ta + tb).column("a")
+                else:
+                    new = regs[op[2]][0].deep_copy()
+            except Exception as e:
+                res.fail = ("raised: adding two column profiles raised %s" % type(e).__name__, {"error": repr(e)[:200], "op": k})
+                return res
+            if kind == "copy":
+                regs[op[1]] = (new, list(regs[op[2]][1]))
+                mops.append(["copy", op[1], op[2]])
+            else:
+                regs[op[1]] = (new, regs[op[2]][1] + regs[op[3]][1])
+                mops.append(["add", op[1], op[2], op[3]])
+    res.fail = left_fail
+    if rounds:
+        res.items.append(("pseq", "C14 pseq " + wire.line("f", bases, mops), mops, rounds, None, None, None, None, set()))
+    return res
+
+
+def valid_pseq(c):
+    cols, ops = c.get("cols"), c.get("ops")
+    if not isinstance(cols, list) or not cols or len(cols) > 6 or not isinstance(ops, list) or len(ops) > 40:
+        return False
+    for col in cols:
+        if not isinstance(col, list) or not col or len(col) > 60000:
+            return False
+        if not all(v is None or (isinstance(v, int) and not isinstance(v, bool) and abs(v) < 2**50) for v in col):
+            return False
+    have = set(range(len(cols)))
+    for op in ops:
+        if not isinstance(op, list) or not op or not all(isinstance(x, int) and not isinstance(x, bool) and 0 <= x < 16 for x in op[1:] if not isinstance(x, str)):
+            return False
+        if op[0] == "q":
+            if len(op) not in (2, 3) or op[1] not in have or (len(op) == 3 and op[2] not in ("ba", "ab", "at")):
+                return False
+        elif op[0] in ("add", "tadd"):
+            if len(op) != 4 or op[2] not in have or op[3] not in have or not isinstance(op[1], int):
+                return False
+            have.add(op[1])
+        elif op[0] == "copy":
+            if len(op) != 3 or op[2] not in have or not isinstance(op[1], int):
+                return False
+            have.add(op[1])
+        else:
+            return False
+    return isinstance(c.get("probes", []), list) and all(isinstance(p, (int, float)) and not isinstance(p, bool) for p in c.get("probes", []))
+
+
 def run_case(case):
+    if case.get("kind") == "pseq":
+        return run_pseq_case(case)
     return run_profile_case(case) if case.get("kind") == "profile" else run_hist_case(case)
 
 
 def valid_case(c):
     if not isinstance(c, dict):
         return False
+    if c.get("type", "INTEGER") not in ("INTEGER", "DOUBLE", "DOUBLE-0"):
+        return False
+    if c.get("kind") == "pseq":
+        return valid_pseq(c)
     if c.get("kind") == "profile":
         if "gen" in c:
             g = c["gen"]
@@ -406,6 +650,33 @@ def _kind(clause):
     return clause.split(":")[0]
 
 
+def fails_alone(case, kind):
+    """Does `case` fail (a clause of the same kind) when it is the only case of a fresh process?  None = could not tell."""
+    import json
+    import subprocess
+    import sys
+
+    code = ("import sys, json\nsys.path[:0] = [%r, %r]\nfrom harness import core\nfrom harness.props import c14\n"
+            "r = c14.run_case(core.unjson(json.loads(sys.stdin.read())))\nprint('CLAUSE ' + (r.fail[0] if r.fail else ''))\n" % (core.REPO, core.VERIF))
+    try:
+        p = subprocess.run([sys.executable, "-c", code], input=json.dumps(core._jsonable(case)), capture_output=True, text=True, timeout=120)
+    except Exception:
+        return None
+    for line in p.stdout.splitlines():
+        if line.startswith("CLAUSE "):
+            return _kind(line[7:]) == kind if line[7:] else False
+    return None
+
+
+def flush_pending(ctx):
+    """A failure that needed state from earlier cases is reported when no self-contained input was found."""
+    pend = getattr(ctx, "_pending_stateful", None)
+    if pend is not None and not ctx.violations:
+        c, f = pend
+        ctx.fail(c, f[0], impl=f[1], model=None, detail=f[1])
+    ctx._pending_stateful = None
+
+
 def evaluate(ctx, cases):
     results = [run_case(c) for c in cases]
     lines = [it[1] for r in results for it in r.items]
@@ -415,11 +686,13 @@ def evaluate(ctx, cases):
         kind = c.get("kind", "hist")
         ctx.case(c, nontrivial=bool(r.items) or r.fail is not None)
         ctx.hit("kind:" + kind)
-        if kind == "profile":
-            ctx.hit("family:" + c.get("family", "profile:?"))
+        if kind in ("profile", "pseq"):
+            ctx.hit("family:" + c.get("family", kind + ":?"))
         if kind == "hist":
             ctx.hit("mode:" + c["mode"])
             ctx.hit("family:" + c.get("family", "?"))
+            for k, n in sorted(getattr(r, "branches", {}).items()):
+                ctx.hit(k, n)
             if getattr(r, "items_skipped", 0):
                 ctx.hit("histogram with float128 centres that collide in float64 (oracle only)", r.items_skipped)
             if r.c13_failed:
@@ -450,11 +723,29 @@ def evaluate(ctx, cases):
             c_min = c if ctx.replaying else shrink(c, still, budget=8 if "gen" in c else ctx.scale(200, 500))
             r2 = run_case(c_min)
             f = r2.fail or r.fail
+            if not ctx.replaying and getattr(ctx, "_pending_stateful", None) is not None and kind != "pseq":
+                continue  # already known to depend on earlier cases; only a sequence case can be self-contained
+            if not ctx.replaying and getattr(ctx, "_alone_checks", 0) < 10:
+                # a replay runs in a fresh process: make sure the input fails there too (an implementation that keeps state
+                # between objects - a memo on the class, a module-level cache - can make a case fail only after other cases)
+                ctx._alone_checks = getattr(ctx, "_alone_checks", 0) + 1
+                alone = fails_alone(c_min, k0)
+                if alone is False and fails_alone(c, k0):
+                    c_min, f, alone = c, r.fail, True
+                if alone is False:
+                    ctx.hit("failure that needs state left by earlier cases (searching on for a self-contained input)")
+                    if getattr(ctx, "_pending_stateful", None) is None:
+                        f[1]["note"] = "fails only after other cases ran in the same process: state shared between objects"
+                        ctx._pending_stateful = (c_min, f)
+                    continue
             ctx.fail(c_min, f[0], impl=f[1], model=None, detail=f[1])
             continue
         for (reg, line, cs, rs, total, scale_q, xs, qs, skip), mo in zip(r.items, case_mouts):
             if not mo.startswith("ok "):
                 raise InfraError("model rejected %r -> %r" % (line[:300], mo))
+            if kind == "pseq":
+                compare_pseq(ctx, c, cs, rs, wire.dec_all(mo[3:])[0])
+                continue
             mode = "f" if kind == "profile" else c["mode"]
             m = wire.dec_all(mo[3:])
             mc, mq, ma = dec_vals(mode, m[0]), dec_vals(mode, m[1]), dec_vals(mode, m[2])
@@ -481,6 +772,34 @@ def evaluate(ctx, cases):
             if dis is not None:
                 ctx.disagree(c, dis["impl"], dis["model"], what="%s differs from the model at %r (register %s)" % (dis["what"], dis.get("x", dis.get("q")), reg))
                 break
+
+
+def compare_pseq(ctx, c, mops, rounds, mouts):
+    """Correspondence of a sequence: every round of estimates against the model's, which ran the same operations on
+    Model/ProfileEst.lean from the implementation's freshly built profiles."""
+    if len(mouts) != len(mops):
+        raise InfraError("model answered %d of %d operations" % (len(mouts), len(mops)))
+    qi = 0
+    for op, mo in zip(mops, mouts):
+        if op[0] != "q":
+            if mo != ["ok"]:
+                ctx.disagree(c, "the sum exists", mo, what="adding two column profiles fails in the model (%r)" % (mo,))
+                return
+            ctx.hit("pseq:" + op[0])
+            continue
+        k, probes, below, above, nonnull = rounds[qi]
+        qi += 1
+        ctx.hit("pseq:q")
+        ctx.hit("profile probes", len(probes))
+        if mo[0] != "q":
+            raise InfraError("model answered %r to a round of estimates" % (mo,))
+        mb, ma = dec_vals("f", mo[1]), dec_vals("f", mo[2])
+        for what, impl, mod in (("estimate_values_below", below, mb), ("estimate_values_above", above, ma)):
+            for x, a, b in zip(probes, impl, mod):
+                if not close(a, b, Fraction(max(nonnull, 1))):
+                    ctx.disagree(c, None if a is None else float(a), None if b is None else float(b),
+                                 what="%s differs from the model at %r (operation %d of the sequence)" % (what, x, k))
+                    return
 
 
 # --------------------------------------------------------------------------- generators
@@ -560,6 +879,10 @@ def cut_cases(ctx, n_random):
             for order in ("ab", "ba"):
                 yield {"kind": "profile", "batches": [a, b], "order": order, "probes": midpoints(col), "probe_distinct": True,
                        "family": "profile:cut"}
+            if cut == len(col) // 2 or (cut == 1 and len(col) > 2):
+                # the same column typed DOUBLE (integer-valued floats, zeros written -0.0): the other way into NumericProfiler
+                yield {"kind": "profile", "batches": [a, b], "order": "ab", "probes": midpoints(col), "probe_distinct": True,
+                       "family": "profile:cut-double", "type": rng.choice(["DOUBLE", "DOUBLE-0"])}
 
 
 def big_frame_cases(ctx):
@@ -572,6 +895,98 @@ def big_frame_cases(ctx):
         lo, hi = min(vals), max(vals)
         probes = sorted(set([lo, hi, 0] + [rng.randint(lo, hi) for _ in range(25)] + [rng.randint(lo, hi) + 0.5 for _ in range(10)]))
         yield {"kind": "profile", "gen": g, "probes": [p for p in probes if lo <= p <= hi], "family": "profile:batches"}
+
+
+SEQ_PAIRS = [
+    ([0, 1, 2, 3], [5, 6, 7, 8, 9]), ([0, 3, 7], [0, 0, 5, 9]), ([-5, -2, 0], [1, 4]), ([1, 4], [-5, -2, 0]), ([3, None, 4], [None, None]),
+    ([None], [2, 2, 7]), ([5, 5, 5], [5, 5]), ([0], [0]), ([-1, 0], [0, 1]), ([2, 9, 4, None], [2, 9, 4]), ([7, 8], [1, 2, 3, 4, 5, 6]),
+    (list(range(0, 120)), list(range(60, 200))), ([(i * 37) % 300 for i in range(600)] + [None] * 25, [(i * 11) % 300 for i in range(900)]),
+    (list(range(-80, 0)), list(range(0, 90, 3))),
+    # same number of bins, same minimum and maximum, different counts (a cache keyed on too little would mix them up)
+    ([0, 0, 1], [0, 1]), ([-3, 4, 4, 4], [-3, -3, 4]),
+]
+
+
+def seq_patterns(first):
+    """Sequences on one profile object: query, merge, query again."""
+    return [
+        ("query-add-query", [["q", 0, first], ["add", 2, 0, 1], ["q", 2, first]]),
+        ("query-radd-query", [["q", 0, first], ["add", 2, 1, 0], ["q", 2, first]]),
+        ("query-right-add-query", [["q", 1, first], ["add", 2, 0, 1], ["q", 2, first], ["q", 0, first]]),
+        ("query-both-add-query", [["q", 0, first], ["q", 1, first], ["add", 2, 0, 1], ["q", 2, first], ["q", 0], ["q", 1]]),
+        ("add-self", [["q", 0, first], ["add", 2, 0, 0], ["q", 2, first]]),
+        ("running", [["q", 0, first], ["add", 0, 0, 1], ["q", 0, first], ["add", 0, 0, 1], ["q", 0], ["add", 0, 0, 0], ["q", 0, first]]),
+        ("table-add", [["q", 0, first], ["tadd", 2, 0, 1], ["q", 2, first], ["tadd", 2, 2, 0], ["q", 2]]),
+        ("copy", [["copy", 2, 0], ["q", 2, first], ["add", 3, 0, 1], ["q", 3], ["add", 4, 2, 1], ["q", 4, first], ["q", 0]]),
+        ("operand-after", [["q", 0, first], ["add", 2, 0, 1], ["q", 0], ["q", 2, first], ["q", 1]]),
+        ("add-only", [["add", 2, 0, 1], ["q", 2, first], ["add", 3, 2, 2], ["q", 3]]),
+    ]
+
+
+def seq_cases(ctx):
+    rng = ctx.rng
+    for a, b in SEQ_PAIRS:
+        big = len(a) + len(b) > 100
+        firsts = ("ba",) if big else ("ba", "ab", "at")
+        for first in firsts:
+            for name, ops in seq_patterns(first):
+                if big and name in ("copy", "operand-after", "query-both-add-query") and rng.random() < 0.5:
+                    continue
+                c = {"kind": "pseq", "cols": [list(a), list(b)], "ops": [list(o) for o in ops], "family": "pseq:" + name}
+                if not big and first == "ab" and name in ("query-add-query", "running"):
+                    c["type"] = "DOUBLE-0"
+                yield c
+
+
+def random_pseq_case(ctx):
+    rng = ctx.rng
+    ncol = rng.choice([2, 2, 3, 4])
+    cols = []
+    for _ in range(ncol):
+        n = rng.choice([1, 2, 3, 5, 10, 30, 100, 400])
+        shape = rng.choice(["small", "uniform", "negative", "zero-max", "zero-min", "wide", "nulls"])
+        if shape == "small":
+            g = lambda: rng.randint(0, 6)
+        elif shape == "uniform":
+            g = lambda: rng.randint(0, 1000)
+        elif shape == "negative":
+            g = lambda: rng.randint(-500, 50)
+        elif shape == "zero-max":
+            g = lambda: -rng.randint(0, 40)
+        elif shape == "zero-min":
+            g = lambda: rng.randint(0, 40)
+        elif shape == "wide":
+            g = lambda: rng.choice([-1, 1]) * rng.randint(0, 10**6)
+        else:
+            g = lambda: None
+        pnull = rng.choice([0, 0, 0.2])
+        col = [None if (shape == "nulls" or rng.random() < pnull) else g() for _ in range(n)]
+        if shape in ("zero-max", "zero-min"):
+            col[rng.randrange(n)] = 0
+        cols.append(col)
+    if all(v is None for c in cols for v in c):
+        cols[0][0] = rng.randint(-3, 3)
+    have = list(range(ncol))
+    ops = []
+    for _ in range(rng.choice([3, 4, 6, 8, 12])):
+        r = rng.random()
+        if r < 0.45:
+            ops.append(["q", rng.choice(have), rng.choice(["ba", "ab", "at"])])
+        elif r < 0.9:
+            dst = rng.choice(have + [max(have) + 1]) if max(have) < 9 else rng.choice(have)
+            ops.append([rng.choice(["add", "add", "tadd"]), dst, rng.choice(have), rng.choice(have)])
+            if dst not in have:
+                have.append(dst)
+        else:
+            dst = max(have) + 1 if max(have) < 9 else rng.choice(have)
+            ops.append(["copy", dst, rng.choice(have)])
+            if dst not in have:
+                have.append(dst)
+    ops.append(["q", have[-1], "ba"])
+    c = {"kind": "pseq", "cols": cols, "ops": ops, "family": "pseq:random"}
+    if rng.random() < 0.15:
+        c["type"] = rng.choice(["DOUBLE", "DOUBLE-0"])
+    return c
 
 
 BOUNDARY = [
@@ -607,6 +1022,14 @@ def run(ctx):
             evaluate(ctx, [w])
             ctx.hit("corpus:fixed-finding-witness")
     evaluate(ctx, [dict(c) for c in BOUNDARY])
+    # sequences first: a case that uses several profile objects is self-contained, so state an implementation shares between
+    # objects shows up here as a replay that fails in a fresh process too
+    seqs = list(seq_cases(ctx))
+    ctx.note("profile_sequence_cases", len(seqs))
+    for i in range(0, len(seqs), 60):
+        if ctx.violations:
+            break
+        evaluate(ctx, seqs[i : i + 60])
     cuts = list(cut_cases(ctx, ctx.scale(25, 400)))
     ctx.note("profile_cut_cases", len(cuts))
     for i in range(0, len(cuts), 100):
@@ -615,23 +1038,27 @@ def run(ctx):
         evaluate(ctx, list(big_frame_cases(ctx)))
     n_h = ctx.scale(900, 12000)
     n_p = ctx.scale(150, 2500)
-    done_h = done_p = 0
+    done_h = done_p = done_s = 0
     while (done_h < n_h or done_p < n_p) and ctx.time_left() > ctx.scale(5, 170) and not ctx.violations:
         cases = [random_hist_case(ctx) for _ in range(60)] if done_h < n_h else []
         done_h += len(cases)
         if done_p < n_p:
-            cases += [random_profile_case(ctx) for _ in range(10)]
+            cases += [random_profile_case(ctx) for _ in range(10)] + [random_pseq_case(ctx) for _ in range(4)]
             done_p += 10
+            done_s += 4
         evaluate(ctx, cases)
+    flush_pending(ctx)
     ctx.note("random_histogram_cases", done_h)
     ctx.note("random_profile_cases", done_p)
+    ctx.note("random_profile_sequence_cases", done_s)
 
 
 def intensify(ctx):
     n = 0
     while ctx.time_left() > 5 and n < 2000 and not ctx.violations:
-        evaluate(ctx, [random_hist_case(ctx) for _ in range(50)] + [random_profile_case(ctx) for _ in range(10)])
-        n += 60
+        evaluate(ctx, [random_hist_case(ctx) for _ in range(50)] + [random_profile_case(ctx) for _ in range(10)] + [random_pseq_case(ctx) for _ in range(10)])
+        n += 70
+    flush_pending(ctx)
 
 
 def replay(ctx, case):
@@ -640,17 +1067,44 @@ def replay(ctx, case):
 
 def _k01(case, failure):
     """C14-K01: count_at's left tail (min < x <= first centre) is scaled by the first centre's value
-    instead of its count.  Matches only bound/monotonicity failures that involve a left-tail point of a
-    histogram whose first centre is neither the minimum nor within [0, first count]."""
+    instead of its count.  Matches only that branch and only that arithmetic: a bound / monotonicity failure
+    (never a None, an exception or a wrong sum) in which (a) a left-tail point of a histogram whose first centre
+    is neither the minimum nor within [0, first count] is involved, (b) every left-tail value involved is the
+    number `ratio * v0 / 2` the branch computes as it stands, and (c) the failure disappears when those values
+    are replaced by the intended `ratio * f0 / 2`."""
     d = failure.get("detail") or {}
     clause = str(failure.get("clause", ""))
-    if not (clause.startswith("count_at: estimate") or clause.startswith("profile: estimate")) or not isinstance(d, dict) or not d.get("left_tail"):
+    if not (clause.startswith("count_at: estimate") or clause.startswith("profile: estimate")) or "None" in clause:
+        return False
+    if not isinstance(d, dict) or not d.get("left_tail"):
         return False
     lo, v0, f0 = d.get("min"), d.get("first_centre"), d.get("first_count")
     if lo is None or v0 is None or f0 is None or lo == v0 or 0 <= v0 <= f0:
         return False
-    pts = [d[k] for k in ("x", "x1", "x2") if k in d]
-    return any(lo < x <= v0 for x in pts)
+    if "x1" in d:
+        pts = [(d["x1"], d.get("r1")), (d["x2"], d.get("r2"))]
+    else:
+        pts = [(d.get("x"), d.get("got"))]
+    flags = d.get("left_pts")  # which of the points the oracle (in exact arithmetic) placed in the left tail
+    as_is, meant = d.get("left_as_is"), d.get("left_meant")  # the branch's value as it stands / as intended, computed exactly
+    if not all(isinstance(l, list) and len(l) == len(pts) for l in (flags, as_is, meant)) or not any(flags):
+        return False
+    if any(x is None or r is None for x, r in pts):
+        return False
+    total = d.get("total", d.get("non_null"))
+    scale = max(1.0, abs(float(total)) if total is not None else 1.0)
+    repaired = []
+    for (x, r), left, a, m in zip(pts, flags, as_is, meant):
+        if left:
+            if a is None or m is None or abs(r - a) > 1e-9 * max(scale, abs(a)):
+                return False  # not the value this branch computes: something else is wrong
+            repaired.append(m)
+        else:
+            repaired.append(r)
+    tol = 1e-9 * scale
+    if "x1" in d:
+        return repaired[0] <= repaired[1] + tol
+    return total is None or -tol <= repaired[0] <= float(total) + tol
 
 
 KNOWN_PREDICATES = {"count_at_left_tail_uses_value": _k01}
